@@ -75,6 +75,19 @@ def expr_case(draw, max_depth=4, const_calls=True):
         d = draw(st.sampled_from([["num", 2.0], ["const", "pi"], ["num", 1.5]]))
         ast = draw(st.sampled_from([["neg", c], c, ["bin", "*", ["neg", d], c], ["bin", "-", c, d], ["neg", ["bin", "/", c, d]],
                                     ["bin", "*", d, ["neg", c]], ["neg", ["bin", "+", c, d]], ["neg", ["pow", c, 2]]]))
+    elif len(names) >= 2 and draw(st.integers(0, 9)) == 0:
+        # sums that are algebraically related to one another (shared variables with equal or opposite sign, numeric
+        # terms) combined by * / - : sympy matches and rewrites sums when sub-expressions are replaced
+        a, b = ["var", names[0]], ["var", names[1]]
+        c = ["var", names[2]] if len(names) > 2 else ["num", 1.5]
+        num = ["num", draw(st.sampled_from([2.0, 3.0, 0.5, 1.0]))]
+        s1 = draw(st.sampled_from([["bin", "+", a, b], ["bin", "+", a, num], ["bin", "+", ["bin", "+", a, b], c], ["bin", "-", a, b]]))
+        s2 = draw(st.sampled_from([["bin", "-", num, a], ["neg", ["bin", "+", a, num]], ["bin", "-", c, a], ["bin", "+", a, c],
+                                   ["bin", "-", ["bin", "-", num, a], b], ["bin", "+", a, b], ["bin", "-", b, a]]))
+        op = draw(st.sampled_from(["*", "*", "-", "+"]))
+        ast = ["bin", op, s1, s2]
+        if draw(st.booleans()):
+            ast = ["bin", draw(st.sampled_from(["*", "+"])), ast, draw(st.sampled_from([s1, s2, a, ["call", "tanh", s1]]))]
     fl = st.floats(-2.5, 2.5, allow_nan=False).map(lambda v: round(v, 3))
     probes = draw(st.lists(st.lists(fl, min_size=len(names), max_size=len(names)), min_size=3, max_size=3))
     return {"ast": ast, "names": names, "probes": probes, "k": draw(st.integers(0, 1000)),
@@ -95,6 +108,9 @@ def labels_of(case):
         lab.append("const")
     if not E.variables(ast):
         lab.append("constant_rhs")
+    if ast[0] == "bin" and all(isinstance(x, list) and x[0] in ("bin", "neg") for x in ast[2:4]) and \
+            set(E.variables(ast[2])) & set(E.variables(ast[3])):
+        lab.append("related_sums")
     return lab
 
 
